@@ -67,7 +67,7 @@ func FindGrouping(n Node, name string, seen map[string]bool) *Grouping {
 				// If the prefix matches the import statement,
 				// then search for the trimmed name in that module.
 				pname := strings.TrimPrefix(name, i.Prefix.Name+":")
-				if pname == name || i.Module == nil {
+				if pname == name || i.Module == nil || strings.Contains(pname, ":") {
 					continue
 				}
 				if g := FindGrouping(i.Module, pname, seen); g != nil {
@@ -76,7 +76,9 @@ func FindGrouping(n Node, name string, seen map[string]bool) *Grouping {
 			}
 		}
 		v = e.FieldByName("Include")
-		if v.IsValid() {
+		// A name that still carries a prefix refers to an imported module;
+		// only the importing (sub)module's own import table may resolve it.
+		if v.IsValid() && !strings.Contains(name, ":") {
 			for _, i := range v.Interface().([]*Include) {
 				if i.Module == nil {
 					// An include that was never linked.
